@@ -18,6 +18,13 @@ impl Conversion {
     /// 渡された文字が[Conversion::hiragana]または[Conversion::katakana]と一致する場合、
     /// ローマ字を展開した文字列と、その文字列の長さを返す
     pub(crate) fn expand_roma(&self, c: &str) -> Option<(String, usize)> {
+        // 促音そのものの行は、後続に展開できる文字が無い場合のために1文字として展開できるようにする
+        if Conversion::is_sokuon(&self.hiragana)
+            && (c.starts_with(&self.hiragana) || c.starts_with(&self.katakana))
+        {
+            return Some((self.alphabets[0].clone(), 1));
+        }
+
         let mut ret = c.to_string();
         let mut sokuon_count = 0;
 
